@@ -198,6 +198,14 @@ impl Tensor {
         }
     }
     pub fn show(&self) -> String {
+        let s = self.show_full();
+        if s.len() > 600 {
+            format!("{} ... ({} entries)", &s[..s.char_indices().nth(600).map(|x| x.0).unwrap_or(s.len())], self.len())
+        } else {
+            s
+        }
+    }
+    pub fn show_full(&self) -> String {
         match self {
             Tensor::Exact(v) => format!("[{}]", v.iter().map(|x| x.key()).collect::<Vec<_>>().join(" ; ")),
             Tensor::Float(v, _) => format!("[{}]", v.iter().map(|x| format!("{:.6}{:+.6}i", x.0.re, x.0.im)).collect::<Vec<_>>().join(" ; ")),
